@@ -73,7 +73,11 @@ def unit_faults(ctx):
                         # the call completed without reaching allocation #k: enumeration finished
                         depth[name] = max(depth.get(name, 0), k - 1)
                         ok = res["ret"] == ERR_OK
-                        if ok != call.expect_ok:
+                        if ok and not call.expect_ok:
+                            # a builder whose input must be refused (spoiled tag, wrong password, refused certificate ...)
+                            viol("%s:accepts-invalid:%s" % (fn, call.exit_class),
+                                 "%s returned ERR_OK on an input that must be refused (%s)" % (name, call.exit_class), dict(desc, info=info))
+                        elif ok != call.expect_ok:
                             raise Harness("%s returned %d without fault" % (name, res["ret"]))
                         if info["live"]:
                             viol("%s:leak:no-fault" % fn, "%s left %d block(s) (%d octets) allocated" % (name, info["live"], info["live_bytes"]),
